@@ -197,11 +197,11 @@ struct dt_dtdur_s {
 				dt_ssexy_t dv:48;
 				struct {
 #if BYTE_ORDER == BIG_ENDIAN
-					int32_t corr:16;
-					int32_t soft:32;
+					int64_t corr:8;
+					int64_t soft:40;
 #elif BYTE_ORDER == LITTLE_ENDIAN
-					int32_t soft:32;
-					int32_t corr:16;
+					int64_t soft:40;
+					int64_t corr:8;
 #else
 # warning unknown byte order
 #endif	/* BYTE_ORDER */
